@@ -1,7 +1,7 @@
 (* The mutating operations Join and Pop refine their abstract pictures. *)
 From Coq Require Import ZArith List Bool Arith Lia Permutation.
 Import ListNotations.
-From Mds Require Import Gen.RingIdx Ring.RingModel Ring.RingSpec Ring.RingProofsBase Ring.RingProofsRep Ring.RingProofsObs.
+From Mds Require Import Gen.RingIdx Ring.RingBase Ring.RingPlain Ring.RingSpec Ring.RingProofsBase Ring.RingProofsRep Ring.RingProofsObs.
 
 Section Ops.
 Variable T : Type.
